@@ -1126,3 +1126,53 @@ def lemmas_c04():
             ('C04.rec.monotone', {'C04'}, Implies(And(pre, v > vstar), And(v1 < v, v1 > vstar))),
             ('C04.damping_only', {'C04'}, Implies(And(pre, v > 0), (1 - 2 * e) * v - c * e * D * D < v)),
             ('C04.diffusion_only', {'C04'}, Implies(pre, v + 2 * e > v))]
+
+
+# =========================================================================== U7 WakePotentialMap::update
+class WakePotentialMapUpdate(Contract):
+    name = 'vfps::WakePotentialMap::update'
+    tu = 'src/SM/WakePotentialMap.cpp'
+    params = []
+    tags = {'C05', 'C08', 'C17'}
+    ghosts = {'k': 'int', 'e': 'int'}
+
+    def setup(self, cx):
+        from . import ef
+        ccx = Ctx(cx.ex, cx.st, cx._old, cx.args, this='*' + (cx.this or 'this') + '._field')
+        ef.ef_setup(ccx)
+
+    def requires(self, cx):
+        from . import ef
+        nx, ny, nb = ps_globals(cx)
+        ccx = Ctx(cx.ex, cx.st, cx._old, cx.args, this='*' + (cx.this or 'this') + '._field')
+        return [('valid', KM_valid(cx)), ('xsize', cx.f('this._xsize') == nx), ('field', ef.EF_valid(ccx)),
+                ('field_ready', And(ef.PadBunchProfiles().distinct(ccx)))]
+
+    def assigns(self, cx):
+        it, ip, kd, pd = KM_fields(cx)
+        t = cx.this or 'this'
+        f = '*' + t + '._field'
+        from . import ef
+        return [('r', t + '._offset'), ('r', t + '._hinfo', I(0), cx.len('this._offset') * ip)] + \
+               [('r', f + r_[4:]) for r_ in (ef.BP, ef.FF, ef.WL, ef.WPP, 'this._wakepotential')]
+
+    def ensures(self, cx):
+        nx, ny, nb = ps_globals(cx)
+        k, e = cx.g('k'), cx.g('e')
+        t = cx.this or 'this'
+        wp = cx.arr('*' + t + '._field._wakepotential')
+        offs = cx.arr('this._offset')
+        inr = And(k >= 0, k < nb * nx)
+        # bunch b, column x receives exactly the wake potential computed for bunch b, column x: same sign, same scale
+        return [('copy', {'C05', 'C08'}, Implies(inr, z3.Select(offs, k) == z3.Select(wp, k))),
+                ('table', {'C05', 'C08'}, Implies(And(inr, e >= 0, e < cx.f('this._it', 'u8')), row_spec(cx, k, e, offs)))]
+
+    @property
+    def calls(self):
+        from . import ef
+
+        class WPUse(ef.WakePotential):
+            def requires(s_, cx):
+                return [('valid', ef.EF_valid(cx)), ('distinct', ef.PadBunchProfiles().distinct(cx))]
+        return {'vfps::ElectricField::wakePotential': Use(WPUse()),
+                'vfps::KickMap::updateSM': Use(UpdateSM(), inst=lambda cx: [{'g': cx.ghost_of('k'), 'e': cx.ghost_of('e')}])}
